@@ -214,3 +214,26 @@ func init() {
 	extend("C09", func(r *Run) { r.borrow("C05", "C05-R3", "C09-R10") })
 	pkgScope["C13"] = append(pkgScope["C13"], "baseapp")
 }
+
+// queryOnlyCommittedHeights: a future height is not answered (C14). Found by reading the result of seeding round 7 and
+// reproduced (repro/C14_future_height_after_rollback_test.go.txt); repaired in /repo by c3ec09c.
+func queryOnlyCommittedHeights(r *Run, rule string) {
+	P := r.P
+	r.Rule(rule, "a height above the multistore's last commit is not answered: in rootmulti.Store.Query the substore query runs only under !(lastCommitID.Version < req.Height) — substores can hold versions the multistore never committed (abandoned by a rollback, or saved by an interrupted commit)", 1)
+	f := r.fn("(*store/rootmulti.Store).Query")
+	if f == nil {
+		return
+	}
+	n := 0
+	for _, c := range CallsIn(f, "store/types.Queryable.Query") {
+		n++
+		r.requireCut(rule, "rootmulti.Query/substore-query", nil, c, "height<=last-commit", `^!\(param:rs\.lastCommitID\.Version < param:req\.Height\)$`)
+	}
+	if n == 0 {
+		r.Viol(rule, "rootmulti.Query/substore-query", P.Pos(f.Pos()), "Query no longer routes to the substore's Query")
+	}
+}
+
+func init() {
+	extend("C14", func(r *Run) { queryOnlyCommittedHeights(r, "C14-R16") })
+}
